@@ -66,8 +66,22 @@ claim("C06", "proof",
       "CBMC function contracts (dfcc) on mechanically extracted ring/ThreadLink code; ghost-offset content clauses; order assertions; rely/guarantee on paper",
       "DESIGN.md section 6 / C06")
 
+claim("C03", "other",
+      "An effects contract 'alloc_free & lock_free' per function, discharged function by function on call graphs built from the working "
+      "tree on every run: every direct callee of a function on the message path must satisfy the same contract or be on a leaf allow-list; "
+      "the closure is the induction and it quantifies over code, so it holds for every message. Graphs: (a) object code of ports.cpp, "
+      "thread-link.cpp, rtosc.c, dispatch.c and an instantiation of every port-sugar callback kind, compiled with the shipped flags "
+      "(objdump -dr: direct calls, jumps and every relocation against a function symbol); (b) goto-binary call graph of the C layer "
+      "(goto-instrument --call-graph). Entries: all functions of rtosc.c/dispatch.c, Ports::dispatch, RtData::reply/broadcast/chain/"
+      "forward, ThreadLink::write/writeArray/raw_write/read*/hasNext*, the std::function handlers of the sugar callbacks. Forbidden: "
+      "malloc family, operator new/delete, std::string/vector/map members, mutexes, exception allocation. This is a static effects "
+      "analysis in the spirit of a frame clause, NOT a CBMC proof (CBMC cannot parse the C++ TUs), hence category 'other'.",
+      "Indirect calls through std::function are the user's callbacks (assumed RT-safe as the Ports contract documents; counted in evidence). "
+      "Compiler emits every call as call/jump/relocation. Construction/destruction are outside the property.",
+      "effects contract closed over object-code and goto-binary call graphs", "DESIGN.md section 6 / C03")
+
 _later = "check not built yet in this revision (planned, see DESIGN.md section 6)"
-for k in ("C03", "C05", "C16", "C17", "C18", "C19"):
+for k in ("C05", "C16", "C17", "C18", "C19"):
     NA[k] = _later
 NA["C04"] = "Dispatch, the perfect-hash construction and the callbacks are C++ over std::vector<Port>, std::string, std::function with range-for/lambdas; CBMC's C++ front end rejects the TU and has no contract syntax in C++ mode; the only C ingredient, rtosc_match, is decided under C05."
 NA["C09"] = "walk_ports/walk_ports_recurse/bundle_foreach/port_is_enabled take Ports&, iterate std::vector, call std::function ports and snprintf into the shared buffer; no C-extractable core carries the statement."
